@@ -289,6 +289,27 @@ class _PropertyFailure(AssertionError):
 
 
 def _run_hypothesis(strategy_factory, fn, col, n_examples, seed, shrink=True):
+    """One shard of a Hypothesis search.  Returns the (shrunk) failing case or None.
+
+    If Hypothesis reports the property function as flaky (the verdict on one input changed between executions --
+    the checks are pure functions of the code under test, so the code itself behaved differently from call to call:
+    leaked state, dependence on object identity or collection order), the observed failure is reported when it can
+    be observed again; otherwise the shard searches on with a fresh derived seed (at most three more times) and the
+    run is inconclusive (harness error, exit 2) only if that never yields a stable verdict."""
+    last_err = None
+    for attempt in range(4):
+        try:
+            return _run_hypothesis_once(strategy_factory, fn, col, n_examples, seed if attempt == 0 else mix_seed(seed, f"retry{attempt}"), shrink)
+        except HarnessError as e:
+            if not str(e).startswith("flaky property function"):
+                raise
+            last_err = e
+            col.notes["flaky_verdicts_retried"] = col.notes.get("flaky_verdicts_retried", 0) + 1
+            col.violations = []
+    raise last_err
+
+
+def _run_hypothesis_once(strategy_factory, fn, col, n_examples, seed, shrink=True):
     import hypothesis
     from hypothesis import HealthCheck, Phase, given, settings
 
@@ -312,6 +333,7 @@ def _run_hypothesis(strategy_factory, fn, col, n_examples, seed, shrink=True):
         res = fn(case)
         unknown = col.record(case, res)
         if unknown:
+            last_fail["raw"] = case
             last_fail["case"] = jsonable(case)
             last_fail["failures"] = [f.to_json() for f in unknown]
             raise _PropertyFailure(unknown[0].kind)
@@ -323,6 +345,17 @@ def _run_hypothesis(strategy_factory, fn, col, n_examples, seed, shrink=True):
         col.violations = [(last_fail["case"], last_fail["failures"])]
         return last_fail
     except hypothesis.errors.Flaky as e:
+        if "raw" in last_fail:
+            scratch = Collector(col.pid)
+            again = 0
+            for _ in range(5):
+                if scratch.record(last_fail["raw"], fn(last_fail["raw"])):
+                    again += 1
+            if again:
+                for f in last_fail["failures"]:
+                    f["detail"] = f"{f.get('detail', '')} [verdict not stable across executions: observed again in {again} of 5 re-executions]"
+                col.violations = [(last_fail["case"], last_fail["failures"])]
+                return last_fail
         raise HarnessError(f"flaky property function: {e}")
     return None
 
